@@ -32,9 +32,9 @@ fam("fe_small", FE, "h_fe_small", ["secp256k1_fe_impl_set_int", "secp256k1_fe_im
 fam("fe_cmp", FE, "h_fe_cmp", ["secp256k1_fe_impl_cmp_var"])
 fam("fe_b32", FE, "h_fe_b32", ["secp256k1_fe_impl_set_b32_mod", "secp256k1_fe_impl_set_b32_limit", "secp256k1_fe_impl_get_b32"])
 fam("fe_storage", FE, "h_fe_storage", ["secp256k1_fe_impl_to_storage", "secp256k1_fe_impl_from_storage", "secp256k1_fe_storage_cmov"])
-fam("fe_negate", FE, "h_fe_negate", ["secp256k1_fe_impl_negate_unchecked"])
-fam("fe_add", FE, "h_fe_add", ["secp256k1_fe_impl_add"])
-fam("fe_mul_int", FE, "h_fe_mul_int", ["secp256k1_fe_impl_mul_int_unchecked"])
+fam("fe_negate", FE, "h_fe_negate", ["secp256k1_fe_impl_negate_unchecked"], timeout=900)
+fam("fe_add", FE, "h_fe_add", ["secp256k1_fe_impl_add"], timeout=900)
+fam("fe_mul_int", FE, "h_fe_mul_int", ["secp256k1_fe_impl_mul_int_unchecked"], timeout=900)
 fam("fe_half", FE, "h_fe_half", ["secp256k1_fe_impl_half"])
 
 SC = "harness/C05/arith_scalar.c"
@@ -280,3 +280,7 @@ for _u in UNITS:
         _u.min_obl = max(_u.min_obl, int(0.7 * OBSERVED[_u.name]))
 UNITS.append(U("C05.spec_lemmas", ["C05"], FE, "h_spec_lemmas", functions=[], tier="quick", timeout=300, replay=False,
                note="lemma harness: contracts/pre.h scalar_ok / fe_canon / fe_mag (limb-wise transcriptions) equal their value-level meaning for every bit pattern"))
+OBSERVED.update({"C05.spec_lemmas": 165, "C05.sc_mul_512.W128S": 675, "C05.sc_reduce_512.W128S": 397, "C05.fe_mul_inner.W128S": 941, "C05.fe_sqr_inner.W128S": 572})
+for _u in UNITS:
+    if _u.name in OBSERVED:
+        _u.min_obl = max(1, int(0.7 * OBSERVED[_u.name]))
